@@ -491,7 +491,7 @@ def pollDispatchCore (s : St) (now : Nat) : St × Ret :=
           let (s, fin) := shutDown s a
           (s, if fin then .readyErr a else .pending)
 
-def pollDispatch (s : St) (now : Nat) : St :=
+def pollDispatchKeep (s : St) (now : Nat) : St :=
   if s.dDropped || s.done.isSome || s.poisoned then emit s .noop
   else
     let obs0 := s.obs
@@ -507,7 +507,7 @@ def pollDispatch (s : St) (now : Nat) : St :=
 
 /-- Dropping the dispatch: the queues' receivers, the in-flight table and the transport go away. -/
 def dropDispatch (s : St) : St :=
-  if s.dDropped then emit s .noop
+  if s.dDropped || s.poisoned then emit s .noop
   else
     let s := { s with dDropped := true, dWoken := false }
     -- pending_requests: `close()` then every queued message is dropped (its oneshot sender with it)
@@ -518,6 +518,13 @@ def dropDispatch (s : St) : St :=
     let es := s.inflight
     let s := es.foldl (fun s e => osDropTx s e.cid) { s with inflight := [], timers := {} }
     { s with cq := [] }
+
+/-- One poll of the dispatch by an executor: a completed future is dropped right away. -/
+def pollDispatch (s : St) (now : Nat) : St :=
+  let s := pollDispatchKeep s now
+  if s.done.isSome && !s.dDropped then
+    dropDispatch s
+  else s
 
 /-! ### the call future -/
 
